@@ -94,50 +94,27 @@ func checkC18(w *World, r *Report) {
 	r.Rule("R18.2", "cardinality: too few is len < min, too many is len > max, and an all-ones max means unbounded", 1)
 	r.guard("R18.2", func() {
 		fd, _ := w.FuncDecl(w.Func("schema", "cardinalityInRange"))
-		min, max, ln := paramObj(p, fd, 1), paramObj(p, fd, 2), paramObj(p, fd, 3)
-		var cmps []string
-		unbounded := false
-		ast.Inspect(fd.Body, func(x ast.Node) bool {
-			be, ok := x.(*ast.BinaryExpr)
-			if !ok {
-				return true
+		// the boundary cases of the decision table (R18.5 has the whole grid): count == min and count == max are accepted,
+		// one less / one more is not, and an all-ones max accepts any count
+		var bad []string
+		for _, c := range []struct {
+			mn, mx, n int64
+			err     bool
+		}{{2, 4, 2, false}, {2, 4, 1, true}, {2, 4, 4, false}, {2, 4, 5, true}, {0, -1, 1000, false}, {3, -1, 2, true}} {
+			got, why := c18CardinalityVerdict(w, c.mn, c.mx, c.n)
+			if why != "" {
+				panic(undecided{"cardinalityInRange: " + why})
 			}
-			lenSide := func(e ast.Expr) bool {
-				found := false
-				ast.Inspect(e, func(y ast.Node) bool {
-					if id, ok := y.(*ast.Ident); ok && p.TypesInfo.Uses[id] == ln {
-						found = true
-					}
-					return true
-				})
-				return found
+			if got != c.err {
+				bad = append(bad, fmt.Sprintf("min=%d max=%d count=%d: error=%v", c.mn, c.mx, c.n, got))
 			}
-			if lenSide(be.X) && (objOfIdent(p, be.Y) == min || objOfIdent(p, be.Y) == max) {
-				cmps = append(cmps, "len"+be.Op.String()+objOfIdent(p, be.Y).Name())
-			}
-			if be.Op == token.EQL && objOfIdent(p, be.X) == max && types.ExprString(be.Y) == "^uint(0)" {
-				unbounded = true
-			}
-			return true
-		})
-		sort.Strings(cmps)
-		set := map[string]bool{}
-		for _, c := range cmps {
-			set[c] = true
 		}
-		var uniq []string
-		for c := range set {
-			uniq = append(uniq, c)
-		}
-		sort.Strings(uniq)
-		r.Check(strings.Join(uniq, ",") == "len<"+min.Name()+",len>"+max.Name() && unbounded, "R18.2", "cardinalityInRange", fd.Pos(), strings.Join(uniq, ", ")+"; max == ^uint(0) ⇒ unbounded", "the element-count comparisons are {"+strings.Join(uniq, ",")+"} (unbounded test present: "+fmt.Sprint(unbounded)+"): a bound is inclusive/exclusive in the wrong way")
+		r.Check(len(bad) == 0, "R18.2", "cardinalityInRange", fd.Pos(), "len<min, len>max; max == ^uint(0) ⇒ unbounded", "the element-count comparisons are off at {"+strings.Join(bad, "; ")+"}: a bound is inclusive/exclusive in the wrong way")
 	})
 
 	r.Rule("R18.5", "cardinality decision table: for every (min, max, count) of a small grid — count 0 included — cardinalityInRange reports an error iff count < min, or max is bounded and count > max", 1)
 	r.guard("R18.5", func() {
 		fd, _ := w.FuncDecl(w.Func("schema", "cardinalityInRange"))
-		min, max, ln := paramObj(p, fd, 1), paramObj(p, fd, 2), paramObj(p, fd, 3)
-		unb := constant.MakeUint64(^uint64(0))
 		var bad []string
 		n := 0
 		for _, mn := range []int64{0, 1, 2, 3} {
@@ -146,24 +123,18 @@ func checkC18(w *World, r *Report) {
 					continue
 				}
 				for c := int64(0); c <= 5; c++ {
-					env := &guardEnv{p: p, bind: map[types.Object]constant.Value{min: constant.MakeInt64(mn), ln: constant.MakeInt64(c)}}
-					if mx < 0 {
-						env.bind[max] = unb
-					} else {
-						env.bind[max] = constant.MakeInt64(mx)
-					}
-					out, ok := env.run(fd.Body.List)
-					if !ok {
-						panic(undecided{"cardinalityInRange falls off its end"})
+					got, why := c18CardinalityVerdict(w, mn, mx, c)
+					if why != "" {
+						panic(undecided{"cardinalityInRange: " + why})
 					}
 					want := c < mn || (mx >= 0 && c > mx)
 					n++
-					if want != !out.Nil {
+					if want != got {
 						mxs := fmt.Sprint(mx)
 						if mx < 0 {
 							mxs = "unbounded"
 						}
-						bad = append(bad, fmt.Sprintf("min=%d max=%s count=%d: error expected %v, reported %v", mn, mxs, c, want, !out.Nil))
+						bad = append(bad, fmt.Sprintf("min=%d max=%s count=%d: error expected %v, reported %v", mn, mxs, c, want, got))
 					}
 				}
 			}
@@ -857,4 +828,107 @@ func c18DependsOnParam(v ssa.Value, cf *ssa.Function, fns []*ssa.Function) bool 
 	}
 	// constant results selected by tests on the parameter
 	return false
+}
+
+// c18CardinalityVerdict: does cardinalityInRange return an error for (min, max,
+// count)?  max < 0 stands for the all-ones value.  The function's exits are
+// evaluated under the model; min and max are its two unsigned parameters in
+// that order, or the fields Min and Max of a parameter, count its int parameter.
+func c18CardinalityVerdict(w *World, mn, mx, count int64) (isErr bool, why string) {
+	f := w.SSAFunc(w.Func("schema", "cardinalityInRange"))
+	if f == nil {
+		return false, "not found"
+	}
+	if len(ssaLoops(f)) != 0 {
+		return false, "has a loop"
+	}
+	var uints []*ssa.Parameter
+	var cnt *ssa.Parameter
+	for _, p := range f.Params {
+		if bt, ok := p.Type().Underlying().(*types.Basic); ok {
+			switch {
+			case bt.Info()&types.IsUnsigned != 0:
+				uints = append(uints, p)
+			case bt.Info()&types.IsInteger != 0:
+				cnt = p
+			}
+		}
+	}
+	maxV := constant.MakeInt64(mx)
+	if mx < 0 {
+		maxV = constant.MakeUint64(^uint64(0))
+	}
+	var val func(v ssa.Value, d int) constant.Value
+	val = func(v ssa.Value, d int) constant.Value {
+		if d > 6 {
+			return nil
+		}
+		switch x := v.(type) {
+		case *ssa.Const:
+			if x.Value != nil && x.Value.Kind() == constant.Int {
+				return x.Value
+			}
+		case *ssa.Convert:
+			return val(x.X, d+1)
+		case *ssa.ChangeType:
+			return val(x.X, d+1)
+		case *ssa.Parameter:
+			if x == cnt {
+				return constant.MakeInt64(count)
+			}
+			if len(uints) == 2 && x == uints[0] {
+				return constant.MakeInt64(mn)
+			}
+			if len(uints) == 2 && x == uints[1] {
+				return maxV
+			}
+		}
+		switch loadedFieldName(v) {
+		case "Min":
+			return constant.MakeInt64(mn)
+		case "Max":
+			return maxV
+		}
+		return nil
+	}
+	sym := NewSym(w)
+	model := func(a *pcAtom) (bool, bool) {
+		if a.x != nil && a.y != nil && a.subj == "" {
+			x, y := val(a.x, 0), val(a.y, 0)
+			if x == nil || y == nil {
+				return false, false
+			}
+			return constant.Compare(x, a.op, y), true
+		}
+		if bo, ok := a.v.(*ssa.BinOp); ok && a.subj != "" {
+			for _, side := range []ssa.Value{bo.X, bo.Y} {
+				if _, isC := side.(*ssa.Const); isC {
+					continue
+				}
+				if c := val(side, 0); c != nil {
+					if i, exact := constant.Int64Val(c); exact {
+						return a.set.contains(i), true
+					}
+					// the all-ones value: in the set only if the set reaches the top of the range
+					return len(a.set) > 0 && a.set[len(a.set)-1].hi == fullISet[len(fullISet)-1].hi, true
+				}
+			}
+		}
+		return false, false
+	}
+	taken := 0
+	for _, row := range sym.retTable(f, 0) {
+		hit, decided := pcEvalFree(row.cond, model)
+		if !decided {
+			return false, "an exit depends on more than min, max and the count"
+		}
+		if hit {
+			taken++
+			isErr = !isNilConst(row.val)
+		}
+	}
+	if taken != 1 {
+		return false, fmt.Sprintf("%d exits taken at once", taken)
+	}
+	return isErr, ""
 }
